@@ -33,6 +33,10 @@ pub enum Expr {
     Writer(u8, Vec<(Tag, WriteOp, Val, i32)>, Box<Expr>),
     /// build the first expression, drop it at once, return the second
     Discard(Box<Expr>, Box<Expr>),
+    /// inside a bind arm (decoder 4): a fresh variable created by the closure, initialised with the
+    /// captured lhs value, its handle handed out to the history; 0 = `state.var` (top scope),
+    /// 1 = `var_current_scope` (dies with this run of the closure)
+    NewVar(u8),
 }
 
 impl fmt::Debug for Expr {
@@ -42,6 +46,7 @@ impl fmt::Debug for Expr {
             Expr::Lhs => write!(f, "lhs"),
             Expr::Const(v) => write!(f, "const({v:?})"),
             Expr::Cap => write!(f, "const(captured)"),
+            Expr::Map(k, e) if *k >= 8 => write!(f, "map_cyclic[f{}]({e:?})", k % 8),
             Expr::Map(k, e) => write!(f, "map[f{k}]({e:?})"),
             Expr::MapCap(k, e) => write!(f, "mapcap[g{k}]({e:?})"),
             Expr::MapN(k, es) => write!(f, "map{}[h{k}]{es:?}", es.len()),
@@ -61,6 +66,8 @@ impl fmt::Debug for Expr {
                 write!(f, "]]({e:?})")
             }
             Expr::Discard(a, b) => write!(f, "{{let _ = {a:?}; {b:?}}}"),
+            Expr::NewVar(0) => write!(f, "state.var(captured).watch()"),
+            Expr::NewVar(_) => write!(f, "state.var_current_scope(captured).watch()"),
         }
     }
 }
@@ -73,7 +80,7 @@ impl Expr {
                     out.push(*t)
                 }
             }
-            Expr::Lhs | Expr::Const(_) | Expr::Cap => {}
+            Expr::Lhs | Expr::Const(_) | Expr::Cap | Expr::NewVar(_) => {}
             Expr::Map(_, e)
             | Expr::MapCap(_, e)
             | Expr::MapSelf2(_, e)
@@ -107,10 +114,27 @@ impl Expr {
             _ => true,
         }
     }
+    /// does the expression (nested arms included) create a variable inside a closure?
+    pub fn contains_newvar(&self) -> bool {
+        match self {
+            Expr::NewVar(_) => true,
+            Expr::Ref(_) | Expr::Lhs | Expr::Const(_) | Expr::Cap => false,
+            Expr::Map(_, e)
+            | Expr::MapCap(_, e)
+            | Expr::MapSelf2(_, e)
+            | Expr::MapRef(_, e)
+            | Expr::WithOld(_, _, e)
+            | Expr::Writer(_, _, e)
+            | Expr::Cut(_, e) => e.contains_newvar(),
+            Expr::MapN(_, es) | Expr::Fold(_, es) => es.iter().any(|e| e.contains_newvar()),
+            Expr::Zip(a, b) | Expr::DependOn(a, b) | Expr::Discard(a, b) => a.contains_newvar() || b.contains_newvar(),
+            Expr::Bind(l, arms) => l.contains_newvar() || arms.iter().any(|e| e.contains_newvar()),
+        }
+    }
     pub fn contains_bind(&self) -> bool {
         match self {
             Expr::Bind(..) => true,
-            Expr::Ref(_) | Expr::Lhs | Expr::Const(_) | Expr::Cap => false,
+            Expr::Ref(_) | Expr::Lhs | Expr::Const(_) | Expr::Cap | Expr::NewVar(_) => false,
             Expr::Map(_, e)
             | Expr::MapCap(_, e)
             | Expr::MapSelf2(_, e)
@@ -151,6 +175,10 @@ pub struct Profile {
     pub templates: u32,
     pub drop_state: bool,
     pub audit: bool,
+    /// decoder 4: read-only public calls (graphviz dump, stats, ...) as an action
+    pub probes: bool,
+    /// decoder 4: bind closures may create variables (top scope or current scope)
+    pub inner_vars: bool,
     /// swarm testing (decoder v2): expression kinds switched off for this case (bit = index in gen_expr's weight table)
     pub kinds_off: u16,
     /// swarm: at most this many vars
@@ -184,6 +212,8 @@ impl Profile {
             templates: 25,
             drop_state: false,
             audit: false,
+            probes: false,
+            inner_vars: false,
             kinds_off: 0,
             max_vars: 5,
             freeze_structure: false,
@@ -280,10 +310,15 @@ fn gen_leaf(ch: &mut Choices, cx: &mut GenCx) -> Expr {
         alts.extend([1, 2]);
     }
     alts.push(3);
+    if cx.in_arm && cx.prof.inner_vars && crate::choice::dv() >= 4 {
+        alts.extend([4, 5]);
+    }
     match alts[ch.choose(alts.len())] {
         0 => Expr::Ref(refs[ch.choose(refs.len())]),
         1 => Expr::Lhs,
         2 => Expr::Cap,
+        4 => Expr::NewVar(0),
+        5 => Expr::NewVar(1),
         _ => Expr::Const(gen_val(ch)),
     }
 }
@@ -319,7 +354,8 @@ pub fn gen_expr(ch: &mut Choices, cx: &mut GenCx, depth: u32) -> Expr {
     }
     match ch.weighted(&w) {
         0 => gen_leaf(ch, cx),
-        1 => Expr::Map(ch.byte() % 8, Box::new(gen_expr(ch, cx, depth + 1))),
+        // decoder 4: function indices 8..15 are the same functions on a node built with `map_cyclic`
+        1 => Expr::Map(ch.byte() % if crate::choice::dv() >= 4 { 16 } else { 8 }, Box::new(gen_expr(ch, cx, depth + 1))),
         2 => {
             let n = 2 + ch.weighted(&[8, 4, 2, 1, 1]);
             let k = ch.byte() % 10;
